@@ -190,6 +190,21 @@ def install_callbacks(sim, sp, heartbeat=False):
         sim.additional_forces = drag
         sim.force_is_velocity_dependent = 1
         keep.append(drag)
+    if sp.get("hbmod"):
+        def hbmod(simp):
+            """moves mass from particle 1 to particle 2 in two separate writes with a pause in between; does nothing in the
+            heartbeat of the prologue (dt_last_done == 0 there), which runs outside the mutex on the unchanged tree as well"""
+            s_ = simp.contents
+            if s_.dt_last_done == 0.0 or s_.N - s_.N_var < 3:
+                return
+            ps = s_.particles
+            dm = 1e-7 * ps[1].m
+            ps[1].m -= dm
+            time.sleep(0.0003)
+            ps[2].m += dm
+        sim.heartbeat = hbmod
+        keep.append(hbmod)
+        sim._c19_hbmod = hbmod
     if heartbeat:
         cnt = [0]
 
@@ -249,6 +264,10 @@ def dims_of(tag, sp, jp=None):
         d.add("time: one long integrate() call")
     if sp.get("force"):
         d.add("callbacks: additional_forces (velocity dependent)")
+    if sp.get("hbmod"):
+        d.add("callbacks: heartbeat that modifies the simulation")
+    if any(e[1] == "remove" for e in sp.get("edits", [])):
+        d.add("histories: particle removed between integrate() calls, requests / serialisation before the next step")
     if jp.get("hb"):
         d.add("callbacks: heartbeat together with the server")
     if sp.get("coll"):
@@ -301,6 +320,10 @@ def apply_edits(sim, sp, k):
             sim.ri_whfast.corrector = int(val)
         elif kind == "epsilon":
             sim.ri_ias15.epsilon = val
+        elif kind == "remove":
+            # val = number of real particles after the removal: applying the edit again changes nothing
+            if sim.N - sim.N_var > int(val):
+                sim.remove(index=int(idx))
 
 
 def integ_to(sim, sp, tmax):
@@ -981,7 +1004,7 @@ def worker(argv):
         shim.c19_dump(os.path.join(out, "trace.txt").encode())
         res["counts"] = {n: shim.c19_count(i) for i, n in enumerate(
             ["iEnter", "iChkBegin", "iChkSync", "iChkEnd1", "iChkEnd0", "iSpin", "iLock", "iStepBegin", "iStepEnd",
-             "iUnlock", "iEpiSync", "iLeave", "sLock", "sSerBegin", "sSerEnd", "sUnlock", "xStart", "xStop", "sSent", "sStatic", "iShotUnlock", "iShotLock"])}
+             "iUnlock", "iEpiSync", "iLeave", "sLock", "sSerBegin", "sSerEnd", "sUnlock", "xStart", "xStop", "sSent", "sStatic", "iShotUnlock", "iShotLock", "iHbBegin", "iHbEnd"])}
         res["late_spins"] = shim.c19_count(-1)
         res["foreign_ser"] = shim.c19_count(-2)
         res["double_close"] = shim.c19_count(-3)
@@ -1171,6 +1194,8 @@ APPLICABLE_DIMENSIONS = [
     "time: dt < 0", "time: exact_finish_time=0", "time: exact_finish_time=1", "time: short bursts of integrate()",
     "time: integrate() split into several calls", "time: one long integrate() call",
     "callbacks: additional_forces (velocity dependent)", "callbacks: heartbeat together with the server",
+    "callbacks: heartbeat that modifies the simulation",
+    "histories: particle removed between integrate() calls, requests / serialisation before the next step",
     "histories: collisions + merges (N changes)", "histories: tree code", "histories: close encounters",
     "histories: Simulationarchive auto-snapshots in the same run", "histories: copy / save / load mid-run",
     "histories: user edits between integrate() calls, requests on both sides",
@@ -1198,7 +1223,11 @@ def reference_run(rebound, fmt, sp, with_heartbeat, archive=None):
     clib = rebound.clibrebound
     call = [0]
     if with_heartbeat:
+        modfn = getattr(sim, "_c19_hbmod", None)
+
         def hb(simp):
+            if modfn:
+                modfn(simp)                    # the run's own state-modifying heartbeat first, then the record
             s = simp.contents
             table.setdefault(int(s.steps_done), []).append(("A", fmt.canon(sim_bytes(rebound, s)), call[0], s.t))
         sim.heartbeat = hb
@@ -1602,12 +1631,12 @@ S_FACTORS = {
     "calls": ["one", "several", "bursts"],
     "life": ["before", "paused", "during", "restart"],                 # when the server is started / stopped
     "req": ["sim", "sim+kbd", "sim+quit", "sim+routes", "sim+shot"],   # what the clients ask for besides /simulation
-    "edit": ["none", "m", "vx", "dt", "opt"],                          # user edit between integrate() calls (request on both sides)
+    "edit": ["none", "m", "vx", "dt", "opt", "remove"],                # user edit between integrate() calls (request on both sides)
     "config": ["plain", "tp0", "tp1", "single", "zmass", "var1", "var2", "megno", "enc", "coll", "tree"],
     "eft": [1, 0],
     "safe": [1, 0],
     "sign": ["+", "-"],
-    "cb": ["none", "hb", "force"],
+    "cb": ["none", "hb", "force", "hbmod"],          # hbmod: a heartbeat that MODIFIES the simulation in two parts (mass transfer)
     "sa": [0, 1],
     "opt": ["none", "G", "softening", "units", "specific"],
 }
@@ -1619,9 +1648,9 @@ P_FACTORS = {
     "sign": ["+", "-"],
     "sa": [0, 1],
     "opt": ["none", "G", "softening", "units", "specific"],
-    "cb": ["none", "force"],
+    "cb": ["none", "force", "hbmod"],
     "rng": ["none", "seeded-draws"],        # per-simulation generator feeds a particle (collisions shuffle with rand_r(&r->rand_seed) too)
-    "edit": ["none", "m", "dt"],            # user edit between the two integrate() calls
+    "edit": ["none", "m", "dt", "remove"],  # user edit between the two integrate() calls, BEFORE the copy / save
     "mix": ["mixed", "same-type"],          # what runs in the other threads
 }
 _VARK = {"var1": "1st", "var2": "2nd", "megno": "megno"}
@@ -1667,6 +1696,12 @@ def excluded(f, a, g, b):
             return "variational particles need synchronised steps"
         if cfg in _VARK and v.get("cb") == "force":
             return "additional forces are not applied to variational particles"
+        if cfg in ("coll", "tree", "single") and v.get("cb") == "hbmod":
+            return "the mass-transfer heartbeat needs two massive, persistent particles"
+        if cfg in _VARK and v.get("edit") == "remove":
+            return "removing a real particle leaves its variational partners behind"
+        if cfg in ("coll", "tree", "single", "enc") and v.get("edit") == "remove":
+            return "removal scenario uses the plain / test-particle systems"
         if cfg in ("enc", "coll", "tree") and v.get("cb") == "force":
             return "force scenario uses the plain system"
         if cfg in ("enc", "coll", "tree") and v.get("opt") in ("units", "G", "softening"):
@@ -1690,7 +1725,11 @@ def excluded(f, a, g, b):
         return "the probe around the edit needs the server to be up at that moment"
     if req == "sim+quit" and v.get("safe") == 0:
         return "re-entering integrate() synchronises an unsynchronised scheme: not the reference's trajectory by design"
-    if req == "sim+shot" and v.get("cb") in ("hb", "force"):
+    if v.get("edit") == "remove" and v.get("integ") in ("janus", "sei", "mercurius", "trace"):
+        return "removal between calls generated for the integrators that re-index on a changed N"
+    if v.get("edit") == "remove" and v.get("req") == "sim+quit":
+        return "a re-entered integrate() would see the removal at a different call boundary"
+    if req == "sim+shot" and v.get("cb") in ("hb", "force", "hbmod"):
         return "the screenshot scenario installs its own heartbeat"
     if req == "sim+shot" and v.get("calls") == "bursts":
         return "screenshot counts are planned per call"
@@ -1842,6 +1881,8 @@ def build_spec(rng, row, parallel=False):
     if row.get("cb") == "force":
         sp["force"] = 1
         N = min(N, 9)
+    if row.get("cb") == "hbmod":
+        sp["hbmod"] = 1
     opt = row.get("opt", "none")
     o = {}
     if opt == "G":
@@ -1908,8 +1949,16 @@ def build_spec(rng, row, parallel=False):
             ks = [-1] + ks
         ks = ks[:6]
         edits = []
+        nreal = sp["N"] + (1 if (parallel and row.get("rng") == "seeded-draws" and integ != "janus") else 0)
         for k in ks:
             kind = ed
+            if kind == "remove":
+                if k == -1 or nreal <= 5:
+                    kind = "m"
+                else:
+                    nreal -= 1
+                    edits.append([k, "remove", rng.randint(1, 3), nreal])      # val = number of real particles afterwards
+                    continue
             if kind == "opt":
                 kind = "corrector" if (integ == "whfast" and not sp.get("opt", {}).get("coordinates") and not sp.get("opt", {}).get("kernel")) else ("epsilon" if integ == "ias15" else "softening")
             if kind == "dt" and k == -1:
@@ -2324,6 +2373,7 @@ def par_task(rebound, fmt, sp, tmpdir, ident):
     afn = os.path.join(tmpdir, "arch_%s.bin" % ident)
     attach_archive(sim, sp, afn)
     integ_to(sim, sp, sp["tmax"][0])
+    apply_edits(sim, sp, 0)                    # user edit (mass, dt, REMOVAL of a particle) between the calls, then the serialisations
     cp = sim.copy()
     install_callbacks(cp, sp)
     fn = os.path.join(tmpdir, "par_%s.bin" % ident)
@@ -2333,8 +2383,6 @@ def par_task(rebound, fmt, sp, tmpdir, ident):
         f.write(buf)
     ld = rebound.Simulation(fn)
     install_callbacks(ld, sp)
-    for x_ in (sim, ld, cp):
-        apply_edits(x_, sp, 0)                 # user edit between the two integrate() calls (after the serialisations)
     integ_to(sim, sp, sp["tmax"][1])
     integ_to(ld, sp, sp["tmax"][1])
     integ_to(cp, sp, sp["tmax"][1])
@@ -2678,7 +2726,8 @@ def run(c):
     c.cov["globals_table"]["writable_symbols"] = ["%s:%s" % (o, n) for o, t, n in info["writable_symbols"]]
     phase("lake build RV.Props.C19 + axiom audit")
     ok = c.prove(["RV.Props.C19"])
-    table_bad = bool(info["unallowed_globals"] or info["unallowed_statics"] or info["unallowed_libc"] or info["assigned"])
+    table_bad = bool(info["unallowed_globals"] or info["unallowed_statics"] or info["unallowed_libc"] or info["assigned"] or info["unallowed_save_writes"])
+    c.cov["serialisation_writes_to_live_simulation"] = {"assignments": info["save_writes"], "calls": info["save_calls"], "not_allowed": info["unallowed_save_writes"]}
     if table_bad:
         c.log("NEW PROCESS-GLOBAL STATE:", info["unallowed_globals"], info["unallowed_statics"], info["unallowed_libc"], info["assigned"])
     phase("lake build drv_c19")
